@@ -163,7 +163,7 @@ func c18ConcCalls(c *c18Case) [][]c18Call {
 // c18ConcRun makes the calls from G goroutines on one reporter; "" = the client saw exactly
 // the expected multiset of calls.
 func c18ConcRun(c *c18Case, per [][]c18Call) (fail string, obs []Ev) {
-	st := &c18Statter{}
+	st := &c18Statter{err: c.Err}
 	rep := tstatsd.NewReporter(st, tstatsd.Options{SampleRate: math.Float32frombits(c.Rate), HistogramBucketNamePrecision: c.Prec})
 	start := make(chan struct{})
 	var wg sync.WaitGroup
@@ -236,7 +236,7 @@ func c18ConcOne(ctx *Ctx, c *c18Case) {
 	for i := 0; i < reps && fail == ""; i++ {
 		fail, obs = c18ConcRun(c, per)
 	}
-	ctx.Case(c, "", fmt.Sprintf("concurrent/goroutines=%d", c.Conc.G), hashOf(c))
+	ctx.Case(c, "", fmt.Sprintf("concurrent/goroutines=%d/client-err-mode=%d", c.Conc.G, c.Err), hashOf(c))
 	if fail != "" {
 		ctx.Fail("concurrent_report_calls_result_in_the_expected_multiset_of_client_calls", fail, c, obs)
 	}
